@@ -610,7 +610,12 @@ def ordered_cases(tier, rng):
         ins, walls = zone_points(zm, rng, 0, rule_years(zm, [2100]), 3)
         rng.shuffle(ins)
         rng.shuffle(walls)
-        yield case_line('lz.env', data, zm.tagged(data), 0, ins[:20])
+        # instants in a year where the rule's start and end swap their order against a neighbouring year
+        # belong to the recorded finding (the hook route sends them to lz.uat); the public route leaves them out
+        alt = bool(zm.rule and zm.rule[0] == 'A')
+        ins0 = [t for t in ins[:20] if not alt or zm.rule_regular(year_of(t))]
+        if ins0:
+            yield case_line('lz.env', data, zm.tagged(data), 0, ins0)
         ws = [w for w in walls[:40] if zm.spaced(w)][:20]
         if ws:
             yield case_line('lz.env', data, zm.tagged(data), 1, ws)
